@@ -79,3 +79,18 @@ func NewDrummerDBHost() *Host {
 	}
 	panic("drummer DB shard did not become ready")
 }
+
+// ReopenHost restarts a NodeHost on an existing directory (data preserved).
+func ReopenHost(dir, addr string, rtt uint64) *Host {
+	var last error
+	for i := 0; i < 50; i++ {
+		nh, err := dragonboat.NewNodeHost(config.NodeHostConfig{WALDir: dir, NodeHostDir: dir, RTTMillisecond: rtt, RaftAddress: addr,
+			Expert: config.ExpertConfig{LogDB: config.GetTinyMemLogDBConfig()}})
+		if err == nil {
+			return &Host{NH: nh, Dir: dir, Addr: addr}
+		}
+		last = err
+		time.Sleep(100 * time.Millisecond)
+	}
+	panic(fmt.Sprintf("cannot reopen the NodeHost: %v", last))
+}
